@@ -11,7 +11,7 @@ import multiprocessing as mp
 from . import terms
 
 ROOT = os.path.dirname(os.path.dirname(os.path.dirname(os.path.abspath(__file__))))
-BUILD = os.path.join(ROOT, ".build")
+BUILD = os.environ.get("VX_BUILD") or os.path.join(ROOT, ".build")
 PWORKER = os.path.join(BUILD, "release", "pworker")
 DRIVER = os.path.join(ROOT, "vx", "prolog", "driver.pl")
 WORK = os.path.join(ROOT, "work")
